@@ -273,6 +273,7 @@ func readItemKeep(it *Item, one []byte, rest []byte, r *thrift.BufferReader, kee
 
 func checkCodec(c CodecCase, cv *cov) (v *evid.Violation) {
 	var want []byte
+	poisonBufferWriterPool() // pooled writer objects that saw a failed connection must be clean when reused
 	sink := &faultio.ScriptWriter{}
 	bw := bufiox.NewDefaultWriter(sink)
 	target := append(make([]byte, 0, len(c.Prefix)+rapidCapPad(len(c.Prefix))), c.Prefix...)
